@@ -4,6 +4,7 @@ ResetAct == FReset
 StepAct ==
   \/ Is("wr")    /\ Wr(Ev.id)
   \/ Is("rd")    /\ Rd(Ev.id, Ev.same)
+  \/ Is("still") /\ Still(Ev.id, Ev.same)
   \/ Is("rdeof") /\ RdEof
   \/ Is("rderr") /\ RdErr
   \/ Is("limit") /\ Limit(Ev.what, Ev.rel, Ev.accepted, Ev.bufOk)
